@@ -118,9 +118,9 @@ HeaderOk(want, got) == want = "any" \/ want = got
 \* of the vocabulary's segments and the encodings of the character (upper and
 \* lower case hex where the code has a letter digit).  For the placeholders the
 \* harness encodes the first / the last hex digit of the value.
-Codes == [ c \in {"0", "1", "2", "3", "4", "5", "7", "a", "c", "e", "i", "j", "l", "m", "n", "o", "p", "u", "x", "."} |->
+Codes == [ c \in {"0", "1", "2", "3", "4", "5", "6", "7", "a", "c", "e", "i", "j", "l", "m", "n", "o", "p", "u", "x", "."} |->
     CASE c = "0" -> {"%30"} [] c = "1" -> {"%31"} [] c = "2" -> {"%32"} [] c = "3" -> {"%33"}
-      [] c = "4" -> {"%34"} [] c = "5" -> {"%35"} [] c = "7" -> {"%37"}
+      [] c = "4" -> {"%34"} [] c = "5" -> {"%35"} [] c = "6" -> {"%36"} [] c = "7" -> {"%37"}
       [] c = "a" -> {"%61"} [] c = "c" -> {"%63"} [] c = "e" -> {"%65"} [] c = "i" -> {"%69"}
       [] c = "j" -> {"%6A", "%6a"} [] c = "l" -> {"%6C", "%6c"} [] c = "m" -> {"%6D", "%6d"}
       [] c = "n" -> {"%6E", "%6e"} [] c = "o" -> {"%6F", "%6f"} [] c = "p" -> {"%70"}
@@ -137,7 +137,6 @@ Splits ==
       <<"000", ".", "p">>, <<"00", "0", ".p">>, <<"000.", "p", "">>, <<"002", ".", "p">>, <<"001", ".", "p">>, <<"067.", "p", "">>,
       <<"1", "0", "0">>, <<"4", "4", "">>, <<"", "7", "">>, <<"25", "5", "">>,
       <<"pl", "o", "g">>, <<"plog", "2", "">>, <<"w", "p", "">>, <<"mirr", "o", "r">> }
-\* "6" of "067" has no entry in Codes: that split is dropped below
 
 PlaceholderSpellings ==
     { <<ph \o sfx, ph>> : ph \in IssuerIds \cup OriginHashes, sfx \in {"~first", "~last"} }
@@ -237,8 +236,9 @@ EquivPaths(P) ==
     UNION { UNION { {[p EXCEPT ![i] = s] : s \in Spellings(p[i])} : i \in DOMAIN p } : p \in CleanPaths(P) }
 \* ... and a few with two segments spelt so
 EquivTwice(P) ==
-    UNION { UNION { {[q EXCEPT ![Len(q)] = s] : s \in Spellings(q[Len(q)])} : q \in {r \in {[p EXCEPT ![Len(P.pre) + 1] = t] : t \in Spellings(p[Len(P.pre) + 1])} : Len(r) > Len(P.pre) + 1} }
-          : p \in BasePaths(P) }
+    LET a == Len(P.pre) + 1 IN
+    UNION { {[p EXCEPT ![a] = s, ![Len(p)] = t] : s \in Spellings(p[a]), t \in Spellings(p[Len(p)])}
+          : p \in {q \in BasePaths(P) : Len(q) > a} }
 
 GetPaths(P) == CleanPaths(P) \cup UNION {Mutations(p) : p \in BasePaths(P)} \cup TailPaths(P)
                \cup EquivPaths(P) \cup EquivTwice(P)
